@@ -351,3 +351,9 @@ impl approx::UlpsEq for Sym {
 }
 
 impl vek::ops::ColorComponent for Sym { fn full() -> Sym { Sym::named("full") } }
+
+// borrowed forms of MulAdd (vek's vector MulAdd impls are generic over them)
+macro_rules! muladd_refs { ($(($S:ty, $A:ty, $B:ty))+) => { $(
+    impl<'a> num_traits::MulAdd<$A, $B> for $S { type Output = Sym; fn mul_add(self, a: $A, b: $B) -> Sym { mk(Node::Fma(self.0, a.0, b.0)) } }
+)+ } }
+muladd_refs!((&'a Sym, Sym, Sym) (Sym, Sym, &'a Sym) (&'a Sym, Sym, &'a Sym) (Sym, &'a Sym, Sym) (&'a Sym, &'a Sym, Sym) (Sym, &'a Sym, &'a Sym) (&'a Sym, &'a Sym, &'a Sym));
